@@ -118,8 +118,9 @@ def family_sig(tier):
     key = ('sig', tier)
     if key in _FAM: return _FAM[key]
     out = []
+    small = ['b<==a*a', 'c<==a+1', 'd<==b*c', 'b<--a', 'b===c', 'd<==b']
     for n in range(1, (3 if tier == 'quick' else 4) + 1):
-        alpha = KINDS_SIG if n <= 3 else KINDS_SIG[:6]
+        alpha = KINDS_SIG if n <= (2 if tier == 'quick' else 3) else small
         for ks in itertools.product(alpha, repeat=n):
             out.append((('block', tuple(('leaf', False) for _ in range(n))), ks, ()))
     _FAM[key] = out
